@@ -675,7 +675,7 @@ theorem callBeforeSleep_spec (cfg : Cfg) (v : View) (ctx : BackoffCtx) (s : Nat)
     ⦃fun w => ⌜view cfg w = v⌝⦄ callBeforeSleep cfg ctx s
     ⦃post⟨fun _ w => ⌜Prot cfg s cfg.beforeSleep.isSome (view cfg w).mon⌝,
           fun _ w => ⌜PreStop (view cfg w).mon⌝⟩⦄ := by
-  mvcgen [callBeforeSleep, swallowException, ask]
+  mvcgen [callBeforeSleep, swallowException, askHook]
   all_goals (subst_vars; intros)
   all_goals (
     have key := fun lvl a tr ls h hl => step_before_prot cfg (viewOf cfg tr ls).mon lvl ctx s a h hl
